@@ -392,11 +392,11 @@ def run_all(ctx, sub):
     n = ctx.n(4000, 200000)
     cases += [(g.far_case() if i % 25 == 7 else g.many_timers_case() if i % 25 == 13 else
                g.far_double_case() if i % 25 == 19 else g.case()) for i in range(n)]
-    impl, st = vlib.run_sharded(exe, cases, env=ASAN_ENV, timeout=1500)
-    model, _ = vlib.run_sharded(mexe, cases, timeout=1500)
+    impl, st = vlib.run_sharded(exe, cases, env=ASAN_ENV, timeout=5400)
+    model, _ = vlib.run_sharded(mexe, cases, timeout=5400)
     traces = [l[3:] if l.startswith("ok ") else "" for l in impl]
-    c04, _ = vlib.run_sharded(mexe, ["chk04 " + t for t in traces], timeout=1500)
-    c05, _ = vlib.run_sharded(mexe, ["chk05 " + t for t in traces], timeout=1500)
+    c04, _ = vlib.run_sharded(mexe, ["chk04 " + t for t in traces], timeout=5400)
+    c05, _ = vlib.run_sharded(mexe, ["chk05 " + t for t in traces], timeout=5400)
     dist = {k: v - before.get(k, 0) for k, v in ctx.dist.items() if v != before.get(k, 0)}
     d = {"key": key, "cases": cases, "impl": impl, "model": model, "c04": c04, "c05": c05,
          "status": [[rc, err[-2000:]] for rc, err in st], "dist": dist}
@@ -541,7 +541,7 @@ def check_events_allocfail(ctx):
         o[-1] = 0
         return s + (" k 1" if st[4] else "")
     ccases = [line(st, o, k) for st, (o, k) in zip(structs, inj)]
-    impl, stt = vlib.run_sharded(exe, ccases, env=ASAN_ENV, timeout=1500)
+    impl, stt = vlib.run_sharded(exe, ccases, env=ASAN_ENV, timeout=5400)
     mcases = []
     for st, (o, k), a in zip(structs, inj, impl):
         t = a.split()
@@ -559,12 +559,12 @@ def check_events_allocfail(ctx):
         else:
             ctx.count("events.allocfail.not-reached")
         mcases.append(line(st, o, stage))
-    model, _ = vlib.run_sharded(mexe, mcases, timeout=1500)
+    model, _ = vlib.run_sharded(mexe, mcases, timeout=5400)
     traces = [l[3:] if l.startswith("ok ") else "" for l in impl]
     # the retry-at-once predicate applies where the program retries at once; elsewhere check_c04
     c14, _ = vlib.run_sharded(mexe, [("chk14 " if imm else "chk04 ") + t for t, imm in zip(traces, immediate)],
                               timeout=1500)
-    c05, _ = vlib.run_sharded(mexe, ["chk05 " + t for t in traces], timeout=1500)
+    c05, _ = vlib.run_sharded(mexe, ["chk05 " + t for t in traces], timeout=5400)
     nprop = ndiff = 0
     for i, c in enumerate(ccases):
         a, m = impl[i], model[i]
